@@ -14,7 +14,16 @@ pub fn run(case: &Value) -> Value {
     for c in case["src"].as_array().unwrap() {
         src.push(string_of(c));
     }
-    fs::create_dir_all(&src).unwrap();
+    // the source location as the caller names it may be a symbolic link to a directory elsewhere ("dir"), or hold a
+    // package.toml that is a link to a file elsewhere ("file"): relative dependencies are relative to the location named
+    let store = tmp.path().join("real-store").join("deep").join("bp");
+    if case["via_link"] == "dir" {
+        fs::create_dir_all(&store).unwrap();
+        fs::create_dir_all(src.parent().unwrap()).unwrap();
+        std::os::unix::fs::symlink(&store, &src).unwrap();
+    } else {
+        fs::create_dir_all(&src).unwrap();
+    }
     let dest = tmp.path().join("dest");
     fs::create_dir_all(&dest).unwrap();
     fs::write(
@@ -22,7 +31,13 @@ pub fn run(case: &Value) -> Value {
         "api = \"0.10\"\n[buildpack]\nid = \"verif/meta\"\nversion = \"0.0.1\"\n[[order]]\n[[order.group]]\nid = \"a/b\"\nversion = \"1.0.0\"\n",
     )
     .unwrap();
-    fs::write(src.join("package.toml"), bytes_of(&case["package_toml"])).unwrap();
+    if case["via_link"] == "file" {
+        fs::create_dir_all(&store).unwrap();
+        fs::write(store.join("package.toml"), bytes_of(&case["package_toml"])).unwrap();
+        std::os::unix::fs::symlink(store.join("package.toml"), src.join("package.toml")).unwrap();
+    } else {
+        fs::write(src.join("package.toml"), bytes_of(&case["package_toml"])).unwrap();
+    }
     let mut paths: BTreeMap<BuildpackId, PathBuf> = BTreeMap::new();
     for p in case["paths"].as_array().unwrap() {
         // "$TMP" in a location stands for the temporary directory
